@@ -73,7 +73,7 @@ def e2_job(ctx, name, module, script, opts=(), harness_kw=None, backends=('z3',)
     with open(os.path.join(d, 'h.c'), 'w') as f:
         f.write(src)
     sources = [os.path.join(d, 'h.c')] + [os.path.join(d, f) for f in files] + list(extra_sources)
-    flags = ['--no-malloc-may-fail'] + list(extra_flags)
+    flags = ['--no-malloc-may-fail', '--object-bits', '12'] + list(extra_flags)
     if ub_checks:
         flags += ['--signed-overflow-check', '--undefined-shift-check', '--pointer-overflow-check',
                   '--float-overflow-check' if False else '--div-by-zero-check']
